@@ -131,7 +131,13 @@ func sweep(x *mon.Ctx, sel int) {
 		x.HarnessError("seed artefacts: %v", err)
 	}
 	tiersOnly := sel == selTiers
+	// the full context grid (context.go) in the thorough tier; the race variant is there for checkptr on the
+	// assembly-backed paths and keeps the quick grid
+	w.full = x.Thorough() && !strings.HasPrefix(x.Variant, "race")
 	es := catalogue(w)
+	for _, s := range w.shaped {
+		x.Note("context artefact replaced by a shaped one: %s", s)
+	}
 	{
 		var keep []*entry
 		for _, e := range es {
@@ -188,8 +194,11 @@ func sweep(x *mon.Ctx, sel int) {
 			c.End()
 		}
 		for _, kind := range []int{kTiny, kCross} {
-			if tiersOnly || e.signed || !e.wants(kind) {
+			if tiersOnly || e.signed {
 				break // tiny inputs, type confusion and OID edits never reach the tier-dependent primitive: left to c13.sweep
+			}
+			if !e.wants(kind) {
+				continue
 			}
 			n := positions(kind, nil, w)
 			for lo := 0; lo < n; lo += e.chunk {
